@@ -18,6 +18,8 @@ DOCS = [
     ("parse-error", 'fun f( {\n  let "é😀" = \n'),
     ("empty", ''),
     ("non-ascii", '// é😀 comment\nlet x = 1 é 😀\n€x\n'),
+    # parses cleanly; its diagnostics come from loading the imports (a missing file, an unknown built-in file), not from the checker passes
+    ("bad-imports", 'import "./no_such_file_c28.gdn"\nimport "__no_such_builtin.gdn" as nb\n\nlet y = 1\nprintln(string_repr(y))\n'),
 ]
 DOC_NAME = {t: n for n, t in DOCS}
 PATH = {"A": "/verif_scratch/a.gdn", "B": "/verif_scratch/b.gdn", "C": "/verif_scratch/never_opened.gdn"}
